@@ -35,6 +35,20 @@ int main(int argc, char** argv)
         std::fputs(cs::to_text(c).c_str(), stdout);
         return 0;
     }
+    if (cmd == "encode")
+    {
+        // encode <case file> <out file>: canonical text -> libFuzzer byte format (lossy where the byte format is coarser)
+        std::ifstream     in(argc > 2 ? argv[2] : "");
+        std::stringstream ss;
+        ss << in.rdbuf();
+        cs::Case c;
+        if (!cs::from_text(ss.str(), c) || argc < 4)
+            return 3;
+        auto          b = cs::to_bytes(c);
+        std::ofstream o(argv[3], std::ios::binary);
+        o.write(reinterpret_cast<const char*>(b.data()), static_cast<std::streamsize>(b.size()));
+        return 0;
+    }
     if (cmd == "replay")
     {
         en::Options opt;
